@@ -342,7 +342,7 @@ def s_iter(draw, tier):
             items = items[:-1] + [{"k": "decoy", "b": last[: draw(st.integers(1, max(1, len(last) - 1)))].hex(), "decoy": "truncated"}]
     if kind == "chunked-socket":
         n = sum(len(i["b"]) // 2 for i in items)
-        raw = draw(st.one_of(st.none(), st.none(), st.sampled_from([b"ked\r\n\r\n", b"Transfer-Encoding: chunked\r\n\r\n", b"zz\r\n", b"1g\r\n", b"ffffffffffffffffffff\r\nabc\r\n", b"7fffffffffffffff\r\n", b"-1\r\n", b"-4\r\n", b"-5\r\n", b"-6\r\n", b"-7\r\n", b"-9\r\n", b"-a\r\n", b"-10\r\n", b"+3\r\nabc\r\n", b"0x10\r\n", b" 5 \r\nhello\r\n", b"5;ext=1\r\nhello\r\n"]), st.binary(min_size=1, max_size=30)))
+        raw = draw(st.one_of(st.none(), st.none(), st.sampled_from([b"ked\r\n\r\n", b"Transfer-Encoding: chunked\r\n\r\n", b"zz\r\n", b"1g\r\n", b"ffffffffffffffffffff\r\nabc\r\n", b"7fffffffffffffff\r\n", b"-ffffffffffffffffffff\r\nabc\r\n", b"-8000000000000000000\r\n", b"-1\r\n", b"-4\r\n", b"-5\r\n", b"-6\r\n", b"-7\r\n", b"-9\r\n", b"-a\r\n", b"-10\r\n", b"+3\r\nabc\r\n", b"0x10\r\n", b" 5 \r\nhello\r\n", b"5;ext=1\r\nhello\r\n"]), st.binary(min_size=1, max_size=30)))
         extra = {"rawchunked": raw.hex() if raw else None, "enc": draw(st.sampled_from(["none", "gzip", "compress", "deflate", "gzip+deflate", "gzip+compress", "compress+deflate", "gzip+compress+deflate"])), "chunk": draw(st.sampled_from([7, 64, 500, 5000])), "cuts": draw(streams.partitions(max(2, 2 * n)))}
         extra["end"] = draw(st.sampled_from(["close", "close", "dead"]))
         if extra["enc"] != "none" and draw(st.integers(0, 2)) == 0:
